@@ -45,6 +45,9 @@ def gen_num(rng, depth):
         return ("neglit", rng.choice([1, 2, 0.5]))
     op = rng.choice(["+", "-", "*", "/", "+", "-", "*"])
     l, r = gen_num(rng, depth - 1), gen_num(rng, depth - 1)
+    if op == "*" and rng.random() < 0.12:
+        # the shape of finding K10: a product whose left operand is an unparenthesised quotient
+        l = ("bin", "/", gen_num(rng, 0), ("num", rng.choice([1, 2, 4, 0.5, 8])))
     if op == "/":
         # divisors: literals that are powers of two (exact in binary floating point, never zero)
         r = ("num", rng.choice([1, 2, 4, 0.5, 8]))
@@ -118,6 +121,40 @@ def print_min(e, tight=False):
         rt = "(" + rt + ")"
     sep = "" if (tight and op not in ("And", "Or")) else " "
     return lt + sep + op + sep + rt
+
+
+def explicit_tree(e, tight, counter):
+    """the ordinary reading of print_min(e): the tree with a parenthesis node wherever print_min writes parentheses,
+    leaves replaced by ["#i"] (in order) - in the visitor's tree format"""
+    k = e[0]
+
+    def par(t):
+        return {"left": "(", "binOp": t, "right": ")"}
+
+    if k in ("num", "neglit", "bool", "path"):
+        counter[0] += 1
+        return ["#%d" % (counter[0] - 1)]
+    if k == "paren":
+        return par(explicit_tree(e[1], tight, counter))
+    if k == "not":
+        inner = e[1]
+        t = explicit_tree(inner, tight, counter)
+        if inner[0] in ("bin", "not", "neglit"):
+            t = par(t)
+        return {"unOp": "!", "value": t}
+    op, l, r = e[1], e[2], e[3]
+    rk = RANK[op]
+    lt = explicit_tree(l, tight, counter)
+    if (l[0] == "not" and rk >= 3) or (l[0] == "bin" and RANK[l[1]] < rk) or (l[0] == "bin" and RANK[l[1]] == 3 and rk == 3):
+        lt = par(lt)
+    rt = explicit_tree(r, tight, counter)
+    if r[0] == "not" and rk >= 3:
+        rt = par(rt)
+    if r[0] == "bin" and (RANK[r[1]] <= rk if rk != 3 else RANK[r[1]] <= 3):
+        rt = par(rt)
+    if r[0] == "neglit" and op in ("-", "+") and tight:
+        rt = par(rt)
+    return {"binOp": op, "left": lt, "right": rt}
 
 
 def print_full(e):
@@ -293,6 +330,8 @@ def job_expr(args):
                 cnt = [0]
                 rec["indexed"] = index_leaves(rec["tree"], cnt)
                 rec["n_atoms"] = [n_atoms, cnt[0]]
+                if label == "min":
+                    rec["surface"] = explicit_tree(e, tight, [0])
                 decs = []
                 for v in vals:
                     decs.append(decide_with_scheduler(impl, prog, v, kind))
@@ -642,8 +681,10 @@ def _run_c13(ctx, pool, res):
             ops_hist[op] = ops_hist.get(op, 0) + 1
     # correspondence: the Lean exec on the implementation's visitor tree must give the implementation's decisions
     disagreements = []
+    n_surface = 0
     if ctx["model_ok"] and model_reqs:
-        reqs = [{"k": "expr", "tree": v["tree"], "vals": [x["r"] for x in r["vals"]], "tokens": v["tokens"]} for v, r in model_reqs]
+        reqs = [{"k": "expr", "tree": v["tree"], "vals": [x["r"] for x in r["vals"]], "tokens": v["tokens"],
+                 **({"surface": v["surface"]} if v.get("surface") is not None else {})} for v, r in model_reqs]
         resps = run_model(reqs)
         for (v, r), resp in zip(model_reqs, resps):
             if "error" in resp:
@@ -653,6 +694,18 @@ def _run_c13(ctx, pool, res):
                 disagreements.append((v["text"], "decisions implementation %r / model %r" % (v["decisions"], resp.get("decisions"))))
             elif resp.get("parsed") != v["indexed"]:
                 disagreements.append((v["text"], "tree: visitor %s / model parser %s" % (json.dumps(v["indexed"])[:200], json.dumps(resp.get("parsed"))[:200])))
+            elif v.get("surface") is not None:
+                # the generator's intended (ordinary) reading against the Lean ordinary table, its regrouping against
+                # the grammar's table and against the visitor's tree
+                n_surface += 1
+                if not resp.get("surface_tokens_ok"):
+                    disagreements.append((v["text"], "the tokens of the generator's reading differ from the lexer's tokens"))
+                elif not resp.get("ord_canon"):
+                    disagreements.append((v["text"], "the generator's reading is not canonical for the ordinary table of the Lean model"))
+                elif resp.get("rot_gram_canon") != (not r["k10"]):
+                    disagreements.append((v["text"], "regrouped ordinary reading canonical for the grammar: %r, K10 shape: %r" % (resp.get("rot_gram_canon"), r["k10"])))
+                elif resp.get("rot_gram_canon") and resp.get("rot") != v["indexed"]:
+                    disagreements.append((v["text"], "regrouped ordinary reading %s differs from the visitor's tree %s" % (json.dumps(resp.get("rot"))[:200], json.dumps(v["indexed"])[:200])))
     elif not ctx["model_ok"]:
         res["unexplained"].append({"what": "the Lean model does not build: " + "; ".join(ctx["build"].get("build_errors", [])[:3])})
     if disagreements and not res["violations"]:
@@ -666,6 +719,7 @@ def _run_c13(ctx, pool, res):
         "rule": "well-typed boolean expressions of depth <= 4 over number/boolean attribute paths, literals, all 12 binary operators, negation and parentheses, printed with the minimal parentheses of the ordinary precedence and fully parenthesised, as Condition and as While guard; each with up to 6 valuations over {0,+-1,+-2,3,4,8,+-1/2,3/2} (all intermediate values exactly representable); distinct by text; non-trivial: accepted and decided for >= 1 valuation; shapes of finding K10 (a*b after unparenthesised a/b) counted separately",
         "traces_validated_against_impl": len(model_reqs) if ctx["model_ok"] else 0,
         "disagreements_checked": len(disagreements), "operators": ops_hist, "k10_shapes_skipped": k10,
+        "ordinary_readings_checked_against_lean_tables": n_surface,
         "known_findings_reproduced": len(res["known"]), "samples": [sample] if sample else [],
     }
 
